@@ -152,6 +152,17 @@ func (s *Store) roundTrip(kind string, obj client.Object) (client.Object, error)
 	if err := json.Unmarshal(b, out); err != nil {
 		return nil, err
 	}
+	// An API server stores custom resources as the JSON the user sent: a quantity written "1000m" is
+	// served as "1000m", whereas the typed round trip above would canonicalise it to "1" (built-in
+	// types such as pods ARE canonicalised by the server). Keep the submitted form for settings.
+	if in, ok := obj.(*edsv1.ExtendedDaemonsetSetting); ok {
+		st := out.(*edsv1.ExtendedDaemonsetSetting)
+		for i := range st.Spec.Containers {
+			if i < len(in.Spec.Containers) {
+				st.Spec.Containers[i].Resources = *in.Spec.Containers[i].Resources.DeepCopy()
+			}
+		}
+	}
 	return out, nil
 }
 
